@@ -13,6 +13,7 @@ mod rows;
 mod savelog;
 mod tok;
 mod util;
+mod vmrun;
 
 fn main() {
     std::panic::set_hook(Box::new(|_| {}));
@@ -31,6 +32,9 @@ fn main() {
         "escape" => escape::cmd_escape(&opts),
         "opts" => opts::cmd_opts(&opts),
         "facts" => facts::cmd_facts(&opts),
+        "vmrun" => vmrun::cmd_vmrun(&opts),
+        "progs" => vmrun::cmd_progs(&opts),
+        "limits" => vmrun::cmd_limits(&opts),
         "savelog" => savelog::cmd_savelog(&opts),
         c => {
             eprintln!("unknown command {}", c);
